@@ -1,7 +1,9 @@
 mod fw;
 mod gen;
+mod lspc;
 mod props;
 mod refm;
+mod sched;
 mod ws;
 
 use std::path::Path;
@@ -70,6 +72,41 @@ fn main() {
                     println!("diag {:?} {:?} {}", w.fs.path_of(f), d.location.range, d.message);
                 }
             }
+            0
+        }
+        "lsp-probe" => {
+            // developer tool: didOpen immediately followed by didChange and a request
+            let n: usize = args.get(2).and_then(|s| s.parse().ok()).unwrap_or(2000);
+            let tw = lspc::TempWs::new();
+            let mut text = String::new();
+            for i in 0..n {
+                text.push_str(&format!("class C{i}<int a> {{ int x = a; }}\ndef d{i} : C{i}<{i}>;\n"));
+            }
+            tw.write("root.td", &text);
+            let mut c = lspc::Client::start(2);
+            println!("init {}", c.initialize());
+            let uri = tw.uri("root.td");
+            c.did_open(&uri, &text);
+            std::thread::sleep(std::time::Duration::from_millis(args.get(3).and_then(|s| s.parse().ok()).unwrap_or(0)));
+            c.did_change(&uri, 2, &format!("{text}\ndef extra;\n"));
+            let r = c.request("textDocument/documentSymbol", serde_json::json!({"textDocument": {"uri": uri}}), std::time::Duration::from_secs(8));
+            println!("response: {}", match &r { Ok(v) => format!("ok {} bytes", v.to_string().len()), Err(e) => format!("{e:?}") });
+            c.drain(std::time::Duration::from_millis(300));
+            println!("notifications: {}", c.notifications.len());
+            c.shutdown();
+            0
+        }
+        "sched-probe" => {
+            let out = props::c08::run_schedule(args.get(2).map(|s| s.as_str()).unwrap_or("change-root"), &args[3.min(args.len())..].to_vec(), &[]);
+            for st in &out.steps {
+                println!("options {:?} chosen {} last {:?}", st.options, st.chosen, st.last);
+            }
+            println!("outcome: {}", match &out.outcome {
+                props::c08::Outcome::Completed => "completed".to_string(),
+                props::c08::Outcome::Deadlock(d) => format!("deadlock {d}"),
+                props::c08::Outcome::Diverged(d) => format!("diverged {d}"),
+                props::c08::Outcome::Inconclusive(d) => format!("inconclusive {d}"),
+            });
             0
         }
         "run" if args.len() >= 4 => sup::parent_main(find(&args[2]), tier(&args[3])),
